@@ -453,6 +453,7 @@ async fn recv_task(
             }
         }
     };
+    let mut drop_after_next_read = false;
     loop {
         for (pi, us) in &script.pauses {
             if *pi == idx {
@@ -465,6 +466,18 @@ async fn recv_task(
                 let _ = r.stop_sending(code.into());
                 outcome = RecvOutcome::StoppedByUs;
                 break;
+            }
+        }
+        if let Some((at, wait_us)) = script.drop_at {
+            if drop_after_next_read {
+                outcome = RecvOutcome::StoppedByUs;
+                break;
+            }
+            if read >= at {
+                // wait for the rest to arrive, read once more (so that the handle has seen the
+                // final size), then abandon the stream with the remainder unread
+                sleep_us(wait_us).await;
+                drop_after_next_read = true;
             }
         }
         match script.mode {
